@@ -80,9 +80,22 @@ def make_instance(rng, kind):
     mk = lambda k: f"Mk{k}q" if rng.random() < 0.7 else None
     kw = {}
     marks = []
+    dup_mode = rng.random() < 0.3
+    made = []
+
+    def gt(k):
+        """(marker or None, text) for source unit k; in dup mode often IDENTICAL to an earlier unit's text."""
+        if dup_mode and made and rng.random() < 0.6:
+            pair_ = rng.choice([made[-1], made[0]])
+        else:
+            m_ = mk(k)
+            pair_ = (m_, rtext(rng, m_))
+        made.append(pair_)
+        return pair_
     if kind == "pdf":
-        ms = [mk(k) for k in range(1, n + 1)]
-        texts = [rtext(rng, m) for m in ms]
+        pairs_ = [gt(k) for k in range(1, n + 1)]
+        ms = [a for a, _ in pairs_]
+        texts = [b for _, b in pairs_]
         obj = dt.PdfContent(pages=[dt.PdfPage(text=t) for t in texts])
         term = f"(CPdf {cstrs(texts)})"
         marks = [(m, k) for k, m in enumerate(ms, 1) if m]
@@ -108,8 +121,8 @@ def make_instance(rng, kind):
         nums, wf = numbers(rng, n)
         slides, terms = [], []
         for k, num in enumerate(nums, 1):
-            m = mk(k)
-            base = rng.choice(["", rtext(rng, m)])
+            m, gtxt = gt(k)
+            base = rng.choice(["", gtxt])
             if m and m in base and wf:
                 marks.append((m, num))
             forms = [(rng.random() < 0.5, rtext(rng, None, 2)) for _ in range(rng.randint(0, 2))]
@@ -126,9 +139,9 @@ def make_instance(rng, kind):
         nums, wf = numbers(rng, n)
         slides, terms = [], []
         for k, num in enumerate(nums, 1):
-            m = mk(k)
+            m, gtxt = gt(k)
             title = rng.choice([None, "", rtext(rng), "Title"]) if kind == "ppt" else rng.choice(["", rtext(rng), "Title"])
-            body = [rtext(rng, m if i == 0 else None) for i in range(rng.randint(0, 2))]
+            body = [gtxt if i == 0 else rtext(rng) for i in range(rng.randint(0, 2))]
             other = [rtext(rng) for _ in range(rng.randint(0, 2))]
             if m and body and wf:
                 marks.append((m, num))
@@ -144,9 +157,8 @@ def make_instance(rng, kind):
     if kind in ("xlsx", "xls", "ods"):
         sheets, terms = [], []
         for k in range(1, n + 1):
-            m = mk(k)
-            name = rng.choice(["Sheet%d" % k, "", rws(rng), rtext(rng, None, 2)])
-            text = rtext(rng, m)
+            m, text = gt(k)
+            name = rng.choice(["Sheet%d" % k, "Sheet", "", rws(rng), rtext(rng, None, 2)])
             if m:
                 marks.append((m, k))
             terms.append(f"(mkSheet {coq_str(name)} {coq_str(text)})")
@@ -170,8 +182,7 @@ def make_instance(rng, kind):
             nums = [rng.randint(-1, 4) for _ in range(n)]; wf = all(a < b for a, b in zip([0] + nums, nums))
         chs, terms = [], []
         for k, num in enumerate(nums, 1):
-            m = mk(k)
-            t = rtext(rng, m)
+            m, t = gt(k)
             if m and wf:
                 marks.append((m, num))
             chs.append(dt.EpubChapter(chapter_number=num, text=t, title=rtext(rng, None, 2)))
@@ -180,8 +191,8 @@ def make_instance(rng, kind):
     if kind == "rtf":
         pages = []
         for k in range(1, n + 1):
-            m = mk(k)
-            p = rng.choice(["", rws(rng), rtext(rng, m), rtext(rng, m)])
+            m, gtxt = gt(k)
+            p = rng.choice(["", rws(rng), gtxt, gtxt])
             if m and m in p:
                 marks.append((m, k))
             pages.append(p)
@@ -221,9 +232,12 @@ def oracle_units(ctx, where, clsname, us, ft, wf=True, marks=(), expected_units=
     if expected_units is not None and len(us) != expected_units:
         ctx.finding(f"{where}:unit-count", f"{clsname}: {len(us)} units for {expected_units} source units ({where})",
                     dict(replay, expected_units=expected_units))
+    owners = {}
+    for m, k in marks:
+        owners.setdefault(m, []).append(k)
     for m, k in marks:
         holders = [n for n, t in us if m in t]
-        if holders != [k]:
+        if holders != sorted(set(owners[m])):
             ctx.finding(f"{where}:text-in-wrong-unit", f"{clsname}: text of source unit {k} is held by units {holders} "
                         f"({where})", dict(replay, marker=m, source=k))
 
@@ -395,18 +409,21 @@ def run_rtf(ctx):
     for i in range(ctx.n(300, 3000)):
         npages = rng.choice([1, 1, 2, 3, 4, 5])
         segs, src, marks = [], [], []
+        same_pages = rng.random() < 0.3      # every text page carries the same text
+        blank_seen = False
         for k in range(1, npages + 1):
             style = rng.choice(["text", "text", "text", "blank", "spaces", "parsonly"])
+            blank_seen = blank_seen or style != "text"
             seg, rtf = "", ""
             if style == "text":
-                m = f"Mk{k}q"
+                m = "MkSameq" if same_pages else f"Mk{k}q"
                 marks.append((m, k))
-                for j in range(rng.randint(1, 3)):
-                    w = rng.choice([m if j == 0 else "word", "two  spaces", "tail "])
+                for j in range(1 if same_pages else rng.randint(1, 3)):
+                    w = "word" if same_pages else rng.choice([m if j == 0 else "word", "two  spaces", "tail "])
                     if j == 0:
                         w = m + " " + w
                     seg += w; rtf += w
-                    for _ in range(rng.choice([0, 1, 1, 4])):
+                    for _ in range(1 if same_pages else rng.choice([0, 1, 1, 4])):
                         seg += "\n"; rtf += "\\par "
             elif style == "spaces":
                 seg = rtf = "   "
@@ -432,10 +449,16 @@ def run_rtf(ctx):
         info.append(doc.decode())
         ctx.case(("rtf", doc), npages >= 2, kind="rtf:pages")
         # property oracle: text of explicit page k is in the unit numbered k and nowhere else
-        bad = [(m, k, [n for n, t in us if m in t]) for m, k in marks if [n for n, t in us if m in t] != [k]]
+        owners = {}
+        for m, k in marks:
+            owners.setdefault(m, []).append(k)
+        bad = [(m, k, [n for n, t in us if m in t]) for m, k in marks if [n for n, t in us if m in t] != owners[m]]
         nums = [n for n, _ in us]
         if not all(a < b for a, b in zip(nums, nums[1:])):
             ctx.finding("rtf:numbers-not-increasing", f"RTF unit numbers {nums}", {"rtf": doc.decode(), "units": us})
+        elif bad and not blank_seen:
+            ctx.finding("rtf:page-text-in-wrong-unit", f"RTF without blank pages: text of explicit page {bad[0][1]} is returned "
+                        f"in units {bad[0][2]}", {"rtf": doc.decode(), "units": us, "pages": content.pages})
         elif bad:
             ctx.finding("rtf:blank-page-dropped-renumbers-following",
                         f"RTF: text of explicit page {bad[0][1]} is returned in unit {bad[0][2]} (blank pages are dropped "
@@ -802,36 +825,60 @@ NS_A = "http://schemas.openxmlformats.org/drawingml/2006/main"
 NS_R = "http://schemas.openxmlformats.org/officeDocument/2006/relationships"
 REL = "http://schemas.openxmlformats.org/package/2006/relationships"
 
-def make_pptx(slides):
-    """slides: list of (file_number, text or None) in PRESENTATION order; file names slide<file_number>.xml."""
+def make_pptx(slides, rel_order=None):
+    """slides (PRESENTATION order): dicts {file: int, sid: int (@id of p:sldId), rid: str, shapes: [(shape id, text)]}.
+    rel_order: order of the Relationship elements (list of indices into slides)."""
     buf = io.BytesIO()
+    rel_order = list(range(len(slides))) if rel_order is None else rel_order
     with zipfile.ZipFile(buf, "w") as z:
         ct = ('<?xml version="1.0" encoding="UTF-8"?><Types xmlns="http://schemas.openxmlformats.org/package/2006/content-types">'
               '<Default Extension="rels" ContentType="application/vnd.openxmlformats-package.relationships+xml"/>'
               '<Default Extension="xml" ContentType="application/xml"/>'
               '<Override PartName="/ppt/presentation.xml" ContentType="application/vnd.openxmlformats-officedocument.presentationml.presentation.main+xml"/>'
-              + "".join(f'<Override PartName="/ppt/slides/slide{fn}.xml" ContentType="application/vnd.openxmlformats-officedocument.presentationml.slide+xml"/>' for fn, _ in slides)
+              + "".join(f'<Override PartName="/ppt/slides/slide{sl["file"]}.xml" ContentType="application/vnd.openxmlformats-officedocument.presentationml.slide+xml"/>' for sl in slides)
               + '</Types>')
         z.writestr("[Content_Types].xml", ct)
         z.writestr("_rels/.rels", f'<?xml version="1.0"?><Relationships xmlns="{REL}"><Relationship Id="rId1" '
                    f'Type="{NS_R}/officeDocument" Target="ppt/presentation.xml"/></Relationships>')
-        # rel ids deliberately in FILE order, sldIdLst in presentation order
-        by_file = sorted(fn for fn, _ in slides)
-        rid = {fn: f"rId{10 + i}" for i, fn in enumerate(by_file)}
         z.writestr("ppt/_rels/presentation.xml.rels", f'<?xml version="1.0"?><Relationships xmlns="{REL}">'
-                   + "".join(f'<Relationship Id="{rid[fn]}" Type="{NS_R}/slide" Target="slides/slide{fn}.xml"/>' for fn in by_file)
-                   + '</Relationships>')
+                   + "".join(f'<Relationship Id="{slides[k]["rid"]}" Type="{NS_R}/slide" Target="slides/slide{slides[k]["file"]}.xml"/>'
+                             for k in rel_order) + '</Relationships>')
         z.writestr("ppt/presentation.xml", f'<?xml version="1.0"?><p:presentation xmlns:p="{NS_P}" xmlns:r="{NS_R}" xmlns:a="{NS_A}">'
-                   '<p:sldIdLst>' + "".join(f'<p:sldId id="{256 + i}" r:id="{rid[fn]}"/>' for i, (fn, _) in enumerate(slides))
+                   '<p:sldIdLst>' + "".join(f'<p:sldId id="{sl["sid"]}" r:id="{sl["rid"]}"/>' for sl in slides)
                    + '</p:sldIdLst></p:presentation>')
-        for fn, text in slides:
+        for sl in slides:
             sp = ""
-            if text is not None:
-                sp = ('<p:sp><p:nvSpPr><p:cNvPr id="2" name="TextBox 1"/><p:cNvSpPr txBox="1"/><p:nvPr/></p:nvSpPr><p:spPr/>'
-                      f'<p:txBody><a:bodyPr/><a:p><a:r><a:t xml:space="preserve">{text}</a:t></a:r></a:p></p:txBody></p:sp>')
-            z.writestr(f"ppt/slides/slide{fn}.xml", f'<?xml version="1.0"?><p:sld xmlns:p="{NS_P}" xmlns:r="{NS_R}" xmlns:a="{NS_A}">'
+            for shid, text in sl["shapes"]:
+                ph = '<p:ph type="title"/>' if shid == 2 else ""
+                sp += (f'<p:sp><p:nvSpPr><p:cNvPr id="{shid}" name="Shape {shid}"/><p:cNvSpPr/><p:nvPr>{ph}</p:nvPr></p:nvSpPr><p:spPr/>'
+                       f'<p:txBody><a:bodyPr/><a:p><a:r><a:t xml:space="preserve">{text}</a:t></a:r></a:p></p:txBody></p:sp>')
+            z.writestr(f'ppt/slides/slide{sl["file"]}.xml', f'<?xml version="1.0"?><p:sld xmlns:p="{NS_P}" xmlns:r="{NS_R}" xmlns:a="{NS_A}">'
                        f'<p:cSld><p:spTree><p:nvGrpSpPr><p:cNvPr id="1" name=""/><p:cNvGrpSpPr/><p:nvPr/></p:nvGrpSpPr><p:grpSpPr/>{sp}</p:spTree></p:cSld></p:sld>')
-            z.writestr(f"ppt/slides/_rels/slide{fn}.xml.rels", f'<?xml version="1.0"?><Relationships xmlns="{REL}"></Relationships>')
+            z.writestr(f'ppt/slides/_rels/slide{sl["file"]}.xml.rels', f'<?xml version="1.0"?><Relationships xmlns="{REL}"></Relationships>')
+    buf.seek(0)
+    return buf
+
+
+def make_epub(opf_dir, docs, spine):
+    """docs: list of dicts {id, path (from archive root, or None = file missing), href (as written in the manifest, or
+    None = not in the manifest), body}; manifest items are written in docs order; spine: list of ids."""
+    buf = io.BytesIO()
+    opf = (opf_dir + "/" if opf_dir else "") + "content.opf"
+    with zipfile.ZipFile(buf, "w") as z:
+        z.writestr("mimetype", "application/epub+zip")
+        z.writestr("META-INF/container.xml", '<?xml version="1.0"?><container version="1.0" '
+                   'xmlns="urn:oasis:names:tc:opendocument:xmlns:container"><rootfiles><rootfile '
+                   f'full-path="{opf}" media-type="application/oebps-package+xml"/></rootfiles></container>')
+        man = "".join(f'<item id="{d["id"]}" href="{d["href"]}" media-type="application/xhtml+xml"/>'
+                      for d in docs if d["href"] is not None)
+        sp = "".join(f'<itemref idref="{i}"/>' for i in spine)
+        z.writestr(opf, '<?xml version="1.0"?><package xmlns="http://www.idpf.org/2007/opf" version="3.0">'
+                   '<metadata xmlns:dc="http://purl.org/dc/elements/1.1/"><dc:title>T</dc:title></metadata>'
+                   f'<manifest>{man}</manifest><spine>{sp}</spine></package>')
+        for d in docs:
+            if d["path"] is not None:
+                z.writestr(d["path"], '<html xmlns="http://www.w3.org/1999/xhtml"><head><title>c</title></head>'
+                           f'<body>{d["body"]}</body></html>')
     buf.seek(0)
     return buf
 
@@ -879,8 +926,11 @@ def run_end_to_end(ctx):
             oracle_units(ctx, "e2e:html", type(c).__name__, us, ft, True, (), 1, {"html": html})
         k = rng.randint(1, 4)
         bodies = [rng.choice(["", " ", f"Body Mb{j}q\n>From me 2024\nbye"]) for j in range(k)]
-        mbox = b"".join(b"From a@b.c Mon Jan  1 00:00:00 2024\nSubject: s%d\nFrom: a@b.c\nDate: Mon, 01 Jan 2024 00:00:00 +0000\n\n" % j + b.encode() + b"\n\n"
-                        for j, b in enumerate(bodies))
+        same = rng.random() < 0.35      # byte-identical messages (same headers, same body)
+        if same:
+            bodies = ["Body Mb0q\n>From me 2024\nbye"] * k
+        mbox = b"".join(b"From a@b.c Mon Jan  1 00:00:00 2024\nSubject: s%d\nFrom: a@b.c\nDate: Mon, 01 Jan 2024 00:00:00 +0000\n\n" % (0 if same else j)
+                        + b.encode() + b"\n\n" for j, b in enumerate(bodies))
         outs = list(mx.read_mbox_format_mail(io.BytesIO(mbox), "x.mbox"))
         ctx.case(("e2e-mbox", mbox), k >= 2, kind="e2e:mbox")
         if len(outs) != k:
@@ -889,32 +939,63 @@ def run_end_to_end(ctx):
         for j, c in enumerate(outs):
             us, ft = observe(c)
             oracle_units(ctx, "e2e:mbox", type(c).__name__, us, ft, True,
-                         [(f"Mb{j}q", 1)] if len(outs) == k and "Mb" in bodies[j] else (), 1, {"mbox": mbox})
-    # PDF / PPTX: generated N-page documents, blank and whitespace-only pages/slides in first/middle/last position
+                         [("Mb0q" if same else f"Mb{j}q", 1)] if len(outs) == k and "Mb" in bodies[j] else (), 1, {"mbox": mbox})
+    # PDF / PPTX / EPUB: generated multi-unit documents.  Expectations are position-independent: the text of unit k
+    # is exactly source k's text, also when it equals another unit's text (duplicates at distance 1 and > 1).
     from sharepoint2text.parsing.extractors.pdf import pdf_extractor
     from sharepoint2text.parsing.extractors.ms_modern import pptx_extractor
+    from sharepoint2text.parsing.extractors import epub_extractor
 
     def layouts(count):
         out = [["tok"], ["blank"], ["blank", "tok"], ["tok", "blank"], ["tok", "blank", "tok"], ["blank", "blank", "tok"],
-               ["tok", "ws", "tok", "blank"], ["ws", "tok", "blank", "blank", "tok", "tok"], ["tok", "tok", "blank", "tok", "ws", "blank"]]
+               ["tok", "ws", "tok", "blank"], ["ws", "tok", "blank", "blank", "tok", "tok"], ["tok", "tok", "blank", "tok", "ws", "blank"],
+               ["tok", "dup1"], ["tok", "tok", "tok", "dupfar"], ["tok", "dup1", "dup1", "blank", "dupfar"]]
         while len(out) < count:
-            out.append([rng.choice(["tok", "tok", "blank", "ws"]) for _ in range(rng.randint(1, 6))])
+            out.append([rng.choice(["tok", "tok", "blank", "ws", "dup1", "dupfar"]) for _ in range(rng.randint(1, 6))])
         return out[:count]
 
-    def positional(where, c, kinds, replay):
-        us, ft = observe(c)
-        n = len(kinds)
-        ctx.case((where, tuple(kinds)), n >= 2, kind=where)
-        marks = [(f"Mk{j}q", j) for j in range(1, n + 1) if kinds[j - 1] == "tok"]
-        nums = [u[0] for u in us]
-        if nums != list(range(1, len(nums) + 1)):
-            ctx.finding(f"{where}:unit-number-not-source-position", f"{type(c).__name__}: unit numbers {nums} for {n} "
-                        f"pages/slides {kinds}", dict(replay, units=us))
-        oracle_units(ctx, where, type(c).__name__, us, ft, True, marks, n, replay)
+    def tokens_for(kinds):
+        """-> per position the set of tokens its text must contain (dup1 = same content as the previous text unit,
+        dupfar = same content as the FIRST text unit)."""
+        exp, texts = [], []
+        for j, k in enumerate(kinds, 1):
+            if k == "dup1" and texts:
+                exp.append(set(texts[-1]))
+            elif k == "dupfar" and texts:
+                exp.append(set(texts[0]))
+            elif k in ("tok", "dup1", "dupfar"):
+                exp.append({f"Tk{j}q"})
+            else:
+                exp.append(set())
+            if exp[-1]:
+                texts.append(sorted(exp[-1]))
+        return exp
 
-    for kinds in layouts(ctx.n(30, 300)):
-        texts = [f"Mk{j}q page text" if k == "tok" else (None if k == "blank" else rng.choice([" ", "   "]))
-                 for j, k in enumerate(kinds, 1)]
+    def expect_units(where, c, expected, replay):
+        """expected[k-1]: set of tokens unit k must hold (exactly those of the document's token universe), or None when
+        source position k legitimately yields no unit."""
+        us, ft = observe(c)
+        ctx.case((where, repr(expected)), len(expected) >= 2, kind=where)
+        universe = set().union(*[e for e in expected if e]) if any(expected) else set()
+        want_nums = [k for k, e in enumerate(expected, 1) if e is not None]
+        nums = [u[0] for u in us]
+        rp = dict(replay, units=us, expected_tokens=[sorted(e) if e is not None else None for e in expected])
+        if nums != want_nums:
+            ctx.finding(f"{where}:unit-numbers-not-source-positions", f"{type(c).__name__}: unit numbers {nums}, source "
+                        f"positions with a unit {want_nums}", rp)
+        else:
+            for (n_, tx), k in zip(us, want_nums):
+                have = {tk for tk in universe if tk in tx}
+                if have != expected[k - 1]:
+                    ctx.finding(f"{where}:unit-text-not-source-text", f"{type(c).__name__}: unit {k} holds tokens {sorted(have)}, "
+                                f"source {k} has {sorted(expected[k - 1])}", rp)
+                    break
+        oracle_units(ctx, where, type(c).__name__, us, ft, True, (), None, replay)
+
+    for kinds in layouts(ctx.n(32, 300)):
+        exp = tokens_for(kinds)
+        texts = [(" ".join(sorted(e)) + " page text") if e else (None if k == "blank" else rng.choice([" ", "   "]))
+                 for e, k in zip(exp, kinds)]
         data = make_pdf(texts)
         try:
             outs = list(pdf_extractor.read_pdf(io.BytesIO(data), "x.pdf"))
@@ -923,58 +1004,91 @@ def run_end_to_end(ctx):
                         f"{len(kinds)}-page PDF {kinds}", {"pdf": data, "kinds": kinds})
             continue
         for c in outs:
-            positional("e2e:pdf", c, kinds, {"page_kinds": kinds, "pdf": data})
-    for kinds in layouts(ctx.n(25, 250)):
+            expect_units("e2e:pdf", c, exp, {"page_kinds": kinds, "pdf": data})
+
+    # PPTX: sldIdLst order, @id order, rId order, Relationship element order and file-name order permuted independently;
+    # duplicated slides (identical XML incl. shape ids), identical titles, same shape id with different text
+    for kinds in layouts(ctx.n(30, 300)):
         n = len(kinds)
-        files = list(range(1, n + 1))
-        if rng.random() < 0.8:
-            rng.shuffle(files)           # presentation order differs from file-name order
+        perm = lambda base: rng.sample(base, len(base))
+        files = perm(list(range(1, n + 1)))
         if rng.random() < 0.3:
-            files = [f + rng.randint(0, 1) * 10 for f in files]  # gaps in file numbering
-        slides = [(fn, f"Mk{j}q slide text" if k == "tok" else (None if k == "blank" else "  "))
-                  for j, (fn, k) in enumerate(zip(files, kinds), 1)]
-        doc = make_pptx(slides)
+            files = [f + 10 * rng.randint(0, 1) for f in files]
+        sids = perm(list(range(256, 256 + n)))
+        rids = [f"rId{x}" for x in perm(list(range(2, 2 + n)))]
+        rel_order = perm(list(range(n)))
+        same_title = rng.random() < 0.4
+        slides, exp, prev = [], [], []
+        for j, k in enumerate(kinds, 1):
+            if k in ("dup1", "dupfar") and prev:
+                shapes = list(prev[-1] if k == "dup1" else prev[0])      # identical XML incl. shape ids and texts
+            elif k in ("tok", "dup1", "dupfar"):
+                shapes = [(2, "CommonTitleq" if same_title else f"Tk{j}q title"), (3, f"Tb{j}q body")]
+                if rng.random() < 0.3:
+                    shapes.append((rng.choice([3, 4]), f"Tc{j}q extra"))  # same shape id, different text
+            elif k == "ws":
+                shapes = [(2, "  ")]
+            else:
+                shapes = []
+            if any(tx.strip() for _, tx in shapes):
+                prev.append(shapes)
+            exp.append({tx.split()[0] for _, tx in shapes if tx.strip()})
+            slides.append({"file": files[j - 1], "sid": sids[j - 1], "rid": rids[j - 1], "shapes": shapes})
+        doc = make_pptx(slides, rel_order)
+        rp = {"slide_kinds": kinds, "slides_in_presentation_order": slides, "relationship_element_order": rel_order}
         try:
             outs = list(pptx_extractor.read_pptx(doc, "x.pptx"))
         except Exception as e:  # noqa
             ctx.finding("e2e:pptx:generated-document-rejected", f"read_pptx raised {type(e).__name__} on a generated "
-                        f"{n}-slide PPTX", {"slides": slides})
+                        f"{n}-slide PPTX", rp)
             continue
         for c in outs:
-            positional("e2e:pptx", c, kinds, {"slide_kinds": kinds, "slide_files_in_presentation_order": files})
-    # EPUB: spine with unreadable items (missing file / not in manifest): chapter number = spine position
-    import zipfile
-    from sharepoint2text.parsing.extractors import epub_extractor
-    for i in range(ctx.n(25, 250)):
+            expect_units("e2e:pptx", c, exp, rp)
+
+    # EPUB: OPF in the root / one / two levels down; hrefs plain, './', '../', 'x/../', absolute; spine order differs
+    # from manifest order; a document referenced twice; unreadable items (missing file / not in the manifest)
+    for i in range(ctx.n(40, 400)):
+        opf_dir = rng.choice(["", "OEBPS", "a/b"])
+        parent = opf_dir.rsplit("/", 1)[0] if "/" in opf_dir else ""
+        pre = opf_dir + "/" if opf_dir else ""
         k = rng.randint(1, 6)
-        kinds = [rng.choice(["ok", "ok", "ok", "blank", "missing-file", "not-in-manifest"]) for _ in range(k)]
-        buf = io.BytesIO()
-        with zipfile.ZipFile(buf, "w") as z:
-            z.writestr("mimetype", "application/epub+zip")
-            z.writestr("META-INF/container.xml", '<?xml version="1.0"?><container version="1.0" '
-                       'xmlns="urn:oasis:names:tc:opendocument:xmlns:container"><rootfiles><rootfile '
-                       'full-path="OEBPS/content.opf" media-type="application/oebps-package+xml"/></rootfiles></container>')
-            man = "".join(f'<item id="c{j}" href="c{j}.xhtml" media-type="application/xhtml+xml"/>'
-                          for j in range(1, k + 1) if kinds[j - 1] != "not-in-manifest")
-            spine = "".join(f'<itemref idref="c{j}"/>' for j in range(1, k + 1))
-            z.writestr("OEBPS/content.opf", '<?xml version="1.0"?><package xmlns="http://www.idpf.org/2007/opf" version="3.0">'
-                       '<metadata xmlns:dc="http://purl.org/dc/elements/1.1/"><dc:title>T</dc:title></metadata>'
-                       f'<manifest>{man}</manifest><spine>{spine}</spine></package>')
-            for j in range(1, k + 1):
-                if kinds[j - 1] in ("ok", "blank"):
-                    body = f"<p>Mk{j}q text</p>" if kinds[j - 1] == "ok" else "<p> </p>"
-                    z.writestr(f"OEBPS/c{j}.xhtml", '<html xmlns="http://www.w3.org/1999/xhtml"><head><title>c</title></head>'
-                               f'<body>{body}</body></html>')
-        buf.seek(0)
+        docs = []
+        for j in range(1, k + 1):
+            kind = rng.choice(["ok", "ok", "ok", "ok", "blank", "missing-file", "not-in-manifest", "same"])
+            styles = ["plain", "dot", "sub", "updown", "abs"] + (["parent"] if opf_dir else [])
+            st = rng.choice(styles)
+            name = f"c{j}.xhtml"
+            if st == "plain":
+                href, path = name, pre + name
+            elif st == "dot":
+                href, path = "./" + name, pre + name
+            elif st == "sub":
+                href, path = "text/" + name, pre + "text/" + name
+            elif st == "updown":
+                href, path = "x/../text/" + name, pre + "text/" + name
+            elif st == "abs":
+                href, path = "/root_docs/" + name, "root_docs/" + name
+            else:
+                href, path = "../text/" + name, (parent + "/" if parent else "") + "text/" + name
+            body = {"ok": f"<p>Tk{j}q text</p>", "same": "<p>Sameq text</p>", "blank": "<p> </p>"}.get(kind, f"<p>Tk{j}q text</p>")
+            docs.append({"id": f"c{j}", "href": None if kind == "not-in-manifest" else href,
+                         "path": None if kind == "missing-file" else path, "body": body, "kind": kind, "style": st,
+                         "tokens": {"ok": {f"Tk{j}q"}, "same": {"Sameq"}, "blank": set()}.get(kind)})
+        spine = [d["id"] for d in docs]
+        rng.shuffle(spine)
+        if rng.random() < 0.4:
+            spine.insert(rng.randint(0, len(spine)), rng.choice(spine))   # the same document twice
+        manifest_docs = rng.sample(docs, len(docs))
+        by_id = {d["id"]: d for d in docs}
+        exp = [by_id[s_]["tokens"] for s_ in spine]
+        rp = {"opf_dir": opf_dir, "spine": spine,
+              "manifest": [(d["id"], d["href"], d["path"], d["kind"]) for d in manifest_docs]}
         try:
-            outs = list(epub_extractor.read_epub(buf, "x.epub"))
+            outs = list(epub_extractor.read_epub(make_epub(opf_dir, manifest_docs, spine), "x.epub"))
         except Exception:  # noqa — failure surface: C01
             continue
         for c in outs:
-            us, ft = observe(c)
-            ctx.case(("e2e-epub", tuple(kinds)), k >= 2, kind="e2e:epub")
-            marks = [(f"Mk{j}q", j) for j in range(1, k + 1) if kinds[j - 1] == "ok"]
-            oracle_units(ctx, "e2e:epub", type(c).__name__, us, ft, True, marks, None, {"spine_kinds": kinds})
+            expect_units("e2e:epub", c, exp, rp)
     try:
         import openpyxl
     except Exception:  # noqa
@@ -986,12 +1100,17 @@ def run_end_to_end(ctx):
             wb.remove(wb.active)
             k = rng.randint(1, 5)
             marks = []
+            last_tok = None
             for j in range(1, k + 1):
                 ws = wb.create_sheet(f"S{j}")
-                style = rng.choice(["text", "text", "empty", "spaces"])
+                style = rng.choice(["text", "text", "empty", "spaces", "same-as-previous", "same-as-previous"])
+                if style == "same-as-previous" and last_tok is None:
+                    style = "text"
                 if style == "text":
-                    ws["A1"] = f"Mk{j}q"; ws["B2"] = j
-                    marks.append((f"Mk{j}q", j))
+                    last_tok = f"Mk{j}q"
+                if style in ("text", "same-as-previous"):      # identical cell content on several sheets
+                    ws["A1"] = last_tok; ws["B2"] = 7
+                    marks.append((last_tok, j))
                 elif style == "spaces":
                     ws["A1"] = "  "
             buf = io.BytesIO(); wb.save(buf); buf.seek(0)
